@@ -220,3 +220,5 @@ func isHex(s string) bool {
 func bi(n int64) *big.Int { return big.NewInt(n) }
 
 var _ = vsched.Epoch
+
+type x509Cert = x509.Certificate
